@@ -145,3 +145,18 @@ Theorem C20_null_base_slice_partial :
     asrt_sliced_nullbase (fst (d_extension d)) v = true.
 Proof. exact C20_null_base_slice_partial_proved. Qed.
 Print Assumptions C20_null_base_slice_partial.
+
+(* (4) LIFECYCLE.  Every fault-free history of array.hpp entry points in the documented domain of Model/Life.v (constructors,
+   copy / move / view / range / converting assignment, swap, clear, reshape, the three reextent overloads, any rank >= 1, index
+   bases, empty and zero-inner-extent cases; Proofs/LifeOps.v dom_op, Proofs/LifeMain.v hist_dom): no assertion transcribed in
+   Model/AssertsLife.v is false -- reshape's num_elements equality (array.hpp:1239), the extension assertions reached through
+   assignment from views (array.hpp:692/:704/:1077, array_ref.hpp:2079/:2087) incl. the one after reshape(other.extensions()),
+   the sliced / null-base / elements-size assertions of reextent's block transfer (array_ref.hpp:1259-1263, :977-995), and
+   assert(stride() != 0).  (Model.Life is required, not imported: it has its own `config`, `zb`, `collapse`.) *)
+From BM Require Model.Life Model.AssertsLife Proofs.LifeMain Proofs.AssertsLifeProofs.
+Theorem C20_lifecycle_asserts_silent :
+  forall cfg : Life.config, (1 <= Life.c_rank cfg)%nat ->
+  forall h : list Life.lop, LifeMain.hist_dom cfg h (Life.st0 None) ->
+    AssertsLife.life_asserts cfg h (Life.st0 None) = true.
+Proof. exact AssertsLifeProofs.C20_lifecycle_asserts_silent_proved. Qed.
+Print Assumptions C20_lifecycle_asserts_silent.
